@@ -2,6 +2,7 @@
 
 pub mod batch;
 pub mod httpframing;
+pub mod limits;
 pub mod model;
 pub mod single;
 pub mod stream;
